@@ -72,6 +72,8 @@ func init() {
 		Harnesses: []harnessSpec{
 			{Pkg: "bklr", Func: "HarnessC17_required", Tiers: "qt", Covers: []string{"req.empty", "req.nonempty"},
 				Bound: "one document, maps over {a,b} of depth<=2 with lists<=2 (quick) / depth<=3 with lists<=1 (thorough); leaves: $required, any scalar (thorough: 7 or a fixed string), or one 9-byte string that the solver may make equal to the marker ($-free otherwise)"},
+			{Pkg: "bklr", Func: "HarnessC17_listmarkers", Tiers: "qt", Covers: []string{"listmarkers.checked"},
+				Bound: "a lower-layer list of 1-3 entries, any subset of them markers, at the top or nested, with an upper layer supplying a list there: the layered document is the base's other entries + the upper's, bklr reports nothing, bkl accepts"},
 			{Pkg: "bklr", Func: "HarnessC17_nested", Tiers: "qt", Covers: []string{"req.empty", "req.nonempty"},
 				Bound: "a chain of four nested containers, each a map or a list (lists directly inside lists included), marker or plain leaves beside the chain and at its end"},
 			{Pkg: "bklr", Func: "HarnessC17_layers", Tiers: "qt", Covers: []string{"req.empty", "req.nonempty", "layers.overridden"},
@@ -218,6 +220,8 @@ func init() {
 				Bound: "templates of 1-4 segments: literals of <= 2 (quick) / 3 (thorough) printable bytes without $ and { (closing braces, colons, quotes allowed), references to a scalar path (bool, int in [-9,9], token, symbolic string), to $env:FOO (every printable value of <= 2/3 bytes) and to a nested path"},
 			{Pkg: "bkl", Func: "HarnessC13_env", Tiers: "qt", Covers: []string{"env.checked", "env.key"},
 				Bound: "$env:NAME as whole value and as key; FOO every printable string of <= 4 (quick) / 6 (thorough) bytes outside region C13-K1; values that look like a bool and a number stay strings"},
+			{Pkg: "bkl", Func: "HarnessC13_repeatvar", Tiers: "qt", Covers: []string{"repeatvar.doc", "repeatvar.named", "repeatvar.map", "repeatvar.outofscope"},
+				Bound: "{$repeat} / {$repeat:x} in interpolated values and keys under a document-level repeat (count 1-3), named counts, a map-entry repeat, each around a nested list repeat (1-2 copies) evaluated before the reference; and with no enclosing repeat (error), also after a sibling list repeat"},
 			{Pkg: "bkl", Func: "HarnessC13_missing", Tiers: "qt", Covers: []string{"missing.checked", "missing.multi"},
 				Bound: "missing path / unset variable in interpolation, as value and as key; templates of 2-3 references each resolving or missing (path, nested path, $env), a missing one at any position"},
 		},
